@@ -3095,3 +3095,48 @@ _mk_abs(1, 3, 4, 1, "quick")
 _mk_abs(4, 4, 3, 1, "quick")
 _mk_abs(4, 4, 5, 1, "thorough")
 _mk_abs(5, 5, 4, 1, "thorough")
+
+
+# ------------------------------------------------------------------------------------------------
+# Memfs operations from their MIR (auto-inlined rivia code over std models)
+# ------------------------------------------------------------------------------------------------
+from .mirsym import memmodels as MM  # noqa: E402
+from .mirsym.rivia_index import RiviaIndex  # noqa: E402
+
+
+def T_(s):
+    return [BV(32, False, ord(c)) for c in s]
+
+
+def mk_entry(path, kind, mode=None, children=(), target=None):
+    """MemfsEntry value (declaration order: path, alt, rel, dir, file, link, mode, uid, gid, follow, cached, files)"""
+    is_dir, is_file, is_link = kind == "d", kind == "f", kind == "l"
+    mode = mode if mode is not None else (0o40755 if is_dir else 0o100644 if is_file else 0o120777)
+    files = M.opt_some(None, MM.SetM([T_(c) for c in children])) if is_dir else M.opt_none(None)
+    return Adt("MemfsEntry", None, None, [TP.PathBufT(T_(path)), TP.PathBufT(T_(target or "")), TP.PathBufT([]), B(is_dir), B(is_file),
+                                          B(is_link), BV(32, False, mode), BV(32, False, 1000), BV(32, False, 1000), B(False), B(False), files])
+
+
+def mk_memfs(tree, cwd="/"):
+    """tree: {path: ('d', [children]) | ('f', bytes-as-str)}  -> (Memfs value, inner cell)"""
+    entries, files = [], []
+    for p, spec in tree.items():
+        if spec[0] == "d":
+            entries.append((T_(p), BoxRef(mk_entry(p, "d", children=spec[1]))))
+        elif spec[0] == "f":
+            entries.append((T_(p), BoxRef(mk_entry(p, "f"))))
+            files.append((T_(p), BoxRef(Adt("MemfsFile", None, None, [BV(64, False, 0), M.VecM([BV(8, False, ord(c)) for c in spec[1]]),
+                                                                        M.opt_none(None), M.opt_none(None)]))))
+    inner = BoxRef(Adt("MemfsInner", None, None, [TP.PathBufT(T_(cwd)), TP.PathBufT(T_("/")), MM.MapM(entries), MM.MapM(files)]))
+    memfs = Adt("Memfs", None, None, [Adt("Arc", None, None, [BoxRef(Adt("RwLock", None, None, [inner]))])])
+    return memfs, inner
+
+
+def memfs_executor(ctx, solver, tenv, **kw):
+    models = MM.make_mem_models() + M.make_expand_models(tenv) + TP.make_textpath_models() + make_pathtext_models()
+    ex = new_executor(ctx, solver, models, EXPAND_INLINE + COMPONENT_INLINE + RIVIA_INLINE + PATHTEXT_INLINE + GENERIC_PATH_INLINE, **kw)
+    ex.enum_hook = TP.text_enum_hook
+    src = os.path.join(ctx.scratch, "src") if ctx.scratch else os.path.join(common.REPO, "src")
+    ex.auto = RiviaIndex(ctx.mir, src)
+    ex.drop_hook = MM.memfs_drop_hook(ex.auto)
+    return ex
